@@ -64,8 +64,10 @@ def run(ck, models, tier):
             db = r.dst.get_bits()
             fb = None
             # the function pointer as abstracted for this class
-            b0, b1 = r.cls[1]
-            okaddr = db[0] == 0 and db[1] == b1 and all(isinstance(db[k], E) and db[k].op == "bit" and db[k].args[1] == k and same_expr(db[k].args[0], r.func.e) for k in range(2, len(db)))
+            low = r.cls[1]
+            b1 = low[1]
+            okaddr = db[0] == 0 and all(db[k] == low[k] for k in range(1, len(low))) and all(
+                isinstance(db[k], E) and db[k].op == "bit" and db[k].args[1] == k and same_expr(db[k].args[0], r.func.e) for k in range(len(low), len(db)))
             ck.ob("R16.2", base + "/patch-address", tm.target, okaddr,
                   "write address has bits (%s,%s,…) and bits 2.. %s those of the function pointer; expected the pointer with bit 0 cleared" % (
                       db[0], db[1], "are" if okaddr else "are NOT"), where(r.ev))
